@@ -55,6 +55,12 @@ func c03ctx() []gen.Ctx {
 		tmpl("closure-then-def-newscope", 1, `((fn [] (newScope (def g (fn [] $1)) (def x #) (g))))`),
 		tmpl("closure-then-def-let", 1, `((fn [] (let [] (def g (fn [] $1)) (def y #) (g))))`),
 		tmpl("closure-then-set-newscope", 1, `((fn [] (newScope (def g (fn [] $1)) (set x #) (g))))`),
+		// sibling blocks of one activation: closures made at the same depth in different blocks, a block entered after
+		// its sibling is gone
+		tmpl("sibling-lets", 2, `((fn [] (let [a (let [x #] (fn [] $1)) b (let [x #] (fn [] $2))] (list (a) (b) (a)))))`),
+		tmpl("sibling-blocks-plain", 1, `((fn [] (begin (let [y #] (+ 0 y)) (let [z #] $1))))`),
+		tmpl("sibling-blocks-after-closure", 1, `((fn [] (begin (def g0 (let [y #] (fn [] y))) (let [z #] (list (g0) $1)))))`),
+		tmpl("sibling-set", 2, `((fn [] (begin (def get1 (let [x #] (fn [] $1))) (def set2 (let [x #] (fn [v] (begin (set x v) $2)))) (list (set2 #) (get1)))))`),
 		tmpl("recursive-defn-in-block", 1, `((fn [] (newScope (defn down [n] (cond (== n 0) $1 (down (- n 1)))) (down 2))))`),
 	}
 }
@@ -77,7 +83,7 @@ func init() {
 	engine.Register(&engine.Check{
 		ID:    "C03",
 		Level: "exploration",
-		Rule: "scope skeletons over the name pool {x,y}: chains of 38 contexts (functions called immediately / returned / stored / passed, defn inside functions, let, letseq, newScope, for, tail loops, " +
+		Rule: "scope skeletons over the name pool {x,y}: chains of 42 contexts (functions called immediately / returned / stored / passed, defn inside functions, let, letseq, newScope, for, tail loops, " +
 			"sibling closures sharing a variable, one creator called twice, caller-local decoys, closures made in a still-empty block that is bound afterwards, three nesting levels with two activations, closures bound inside per-iteration lets) to length 3 (thorough 4) over 6 leaves that read or write x and y; every binding site binds a distinct integer; " +
 			"value compared with the reference evaluator; distinct_nontrivial = distinct (shape, value) pairs",
 		Assumptions: []string{"R1's textbook lexical scoping is the oracle; bindings are integers only (the re-def type rule is not exercised)"},
